@@ -143,3 +143,16 @@ Theorem lost_or_failed_connection_waits_for_retry_delay : forall policy prep s,
      ms s' = Waiting /\ timer s' = Some (now s + policy (S (failed s)))%Z /\ pend s' = removelast (pend s)).
 Proof. exact loss_schedules_retry. Qed.
 Print Assumptions lost_or_failed_connection_waits_for_retry_delay.
+
+(** a service that is not running (stopService was the last of start/stop) is in Init, Stopped or
+    Disconnecting: it has no attempt in progress and no retry pending, and unless it is still
+    waiting for its connection to close (Disconnecting) no connection is open -- in particular a
+    stop issued while a restart is pending cancels the restart *)
+Theorem stopped_service_makes_no_attempt : forall policy prep ops,
+  let s := fst (run policy prep init ops) in
+  running s = false ->
+  (ms s = Init \/ ms s = Stopped \/ ms s = Disconnecting)
+  /\ pend s = [] /\ preps s = [] /\ timer s = None
+  /\ (tainted s = false -> ms s <> Disconnecting -> conns s = []).
+Proof. exact stopped_is_idle. Qed.
+Print Assumptions stopped_service_makes_no_attempt.
